@@ -203,8 +203,15 @@ class TimeoutCall(Contract):
         return True
 
     # ---------------------------------------------------------------------------------- exits
+    def caller_cancelled(self, it) -> bool:
+        """Was the task running the call cancelled while it awaited the result future (T-FUT alternatives)?"""
+        return any(":future:task-cancelled-" in l or l.endswith("task-cancelled-while-pending") or
+                   l.endswith("task-cancelled-after-result") or l.endswith("task-cancelled-after-exception") for l in it.st.labels)
+
     def on_return(self, it, ret):
         st = it.st
+        st.check("P5:a-cancelled-caller-ends-cancelled(the-cancellation-propagates-whatever-the-function-did-meanwhile)",
+                 z3.BoolVal(not self.caller_cancelled(it)))
         st.check("P5:returns-the-functions-own-result",
                  z3.And(fstate(it, self.task) == F_RESULT, ret == fval(it, self.task)))
         st.check("P5:the-future-is-done-so-on_result-cancels-the-function", fstate(it, self.fut) != F_PENDING)
@@ -216,6 +223,9 @@ class TimeoutCall(Contract):
             st.check("P5:no-failure-before-the-wiring-is-complete", z3.BoolVal(False))
             return
         tv = fval(it, self.task)
+        if self.caller_cancelled(it):
+            st.check("P5:a-cancelled-caller-ends-cancelled(the-cancellation-propagates-whatever-the-function-did-meanwhile)",
+                     is_exc(it, exc, "CancelledError"))
         st.check("P5:raises-the-functions-exception-or-timeout-or-cancellation",
                  z3.Or(z3.And(fstate(it, self.task) == F_EXC, exc == tv),
                        z3.And(V.class_of(V.addr(exc)) == it.ct.id("TimeoutError"), g["fired"]),
